@@ -139,7 +139,7 @@ def cell_cases(ctx, req, meta):
     from jellyfysh.potential.cell_bounding_potential import CellBoundingPotential
     import jellyfysh.event_handler.abstracts.cell_veto_event_handler as cveh
     rng = ctx.rng
-    n_conf = ctx.n(220, 3000)
+    n_conf = ctx.n(500, 4500)
 
     recorded = []
 
@@ -434,6 +434,23 @@ def factor_cases(ctx, req, meta):
     os.makedirs(tmpdir, exist_ok=True)
     fsdir = os.path.join(ctx.root, "jellyfysh", "config_files", "factor_set_files")
 
+    # the table of shipped files inside the Lean model (the `decide`d facts of JF/Props/C10.lean are about it) == the files
+    names = ctx.model("factor", ["shipped"])[0].split()
+    real = sorted(fn for fn in os.listdir(fsdir) if fn.endswith(".txt")) if os.path.isdir(fsdir) else []
+    if sorted(names) != real:
+        ctx.disagree("shipped factor-set files: table JF.FactorMaps.shipped vs directory", {"dir": fsdir}, str(real), str(sorted(names)))
+    for fn, rl in zip(names, ctx.model("factor", [f"shipped {fn}" for fn in names])):
+        path = os.path.join(fsdir, fn)
+        impl = "missing"
+        if os.path.exists(path):
+            try:
+                impl = " ".join([str(SHIPPED.get(fn))] + [f"{tup(s_)}:{ty}" for s_, ty in my_parse(open(path).read())])
+            except Exception as e:  # noqa
+                impl = "unparsed:" + repr(e)
+        if impl != rl:
+            ctx.disagree("shipped factor-set file vs table JF.FactorMaps.shipped", {"file": fn}, impl, rl)
+        ctx.count("factor:shipped-file-table-compared")
+
     cases = []   # (name, text, n_per, n_roots)
     for fn, n_nat in sorted(SHIPPED.items()):
         path = os.path.join(fsdir, fn)
@@ -447,7 +464,7 @@ def factor_cases(ctx, req, meta):
     for fn in sorted(os.listdir(fsdir)) if os.path.isdir(fsdir) else []:
         if fn.endswith(".txt") and fn not in SHIPPED:
             cases.append((fn, open(os.path.join(fsdir, fn)).read(), 2, 3))
-    for i in range(ctx.n(500, 6000)):
+    for i in range(ctx.n(1200, 9000)):
         n_per = rng.choice([1, 2, 2, 3, 3, 4, 5])
         lines, kinds = gen_file(rng, n_per)
         cases.append((f"gen{i}:" + ",".join(sorted(kinds)), factor_text(lines, rng.random() < 0.5), n_per, rng.choice([1, 2, 3, 4, 6])))
